@@ -81,6 +81,19 @@ class LinDom(alg.Alg):
     def off_sub(self, a, b):
         return sp.sympify(a) - sp.sympify(b)
 
+    track_bases = ()
+    _in_access = False
+
+    def on_access(self, kind, p, ty, st, interp):
+        if p.base in self.track_bases and not self._in_access:
+            self._in_access = True
+            try:
+                e = Effect(kind, kind, p.base, p.off, symx.sizeof(ty, {}) if ty.k in ('int', 'float', 'double', 'ptr') else 1, None)
+                e.cap = self.cap_now(interp, st)
+                st.calls.append(e)
+            finally:
+                self._in_access = False
+
     def cap_now(self, interp, st):
         if self.cap_loc is None:
             return None
@@ -140,7 +153,10 @@ class LinDom(alg.Alg):
             if name in ('memcmp',):
                 return self.fresh('cmp')
             if name == 'memchr':
-                return TOP
+                self.nfresh += 1
+                b = 'memchr%d' % self.nfresh
+                self.maybe_null.add(b)
+                return Ptr(b, 0)
             return args[0]
         if name in self.summaries:
             return NotImplemented
@@ -295,6 +311,14 @@ def cases_of(dom, leaf, base_facts, extra=()):
                 cons.append(subst_con(c, kenv))
             for c in rel:
                 cons.append(subst_con(c, kenv))
+            # symbols that are non-negative by construction (sizes, counts, fresh quotients ...)
+            seen = set()
+            for c in list(cons):
+                for sy in c:
+                    if sy != 1 and sy not in seen:
+                        seen.add(sy)
+                        if getattr(sy, 'is_nonnegative', False):
+                            cons.append(fm.le(0, sy))
             if fm.unsat(cons):
                 continue
             out.append(Case(cons, kenv))
@@ -372,6 +396,12 @@ def prove(case, goals):
     for g in goals:
         g2 = subst_con(g, case.kenv)
         extra = abstract_facts(case.cons + [g2])
+        have = set()
+        for c in case.cons:
+            have |= set(k for k in c if k != 1)
+        for sy in g2:
+            if sy != 1 and sy not in have and getattr(sy, 'is_nonnegative', False):
+                extra.append(fm.le(0, sy))
         if extra:
             case.cons = case.cons + [e for e in extra if e not in case.cons]
         if not fm.entails(case.cons, g2):
